@@ -29,6 +29,12 @@ class C05(Check):
             c.update(templater="raw", rules="all", rule_options=lintlib.RULE_OPTIONS[i % len(lintlib.RULE_OPTIONS)],
                      fix=bool(i % 2))
             yield c
+        from vlib.lexparse import PINNED_TEXT
+
+        for i, t in enumerate(PINNED_TEXT):  # degenerate files: empty, blank, lone tokens, unterminated quotes ...
+            for d in ("ansi", gens.dialects()[i % len(gens.dialects())]):
+                yield {"dialect": d, "templater": "raw", "sql": t, "rules": "all", "rule_options": {}, "fix": bool(i % 2),
+                       "origin": "pinned-text"}
         if tier == "thorough":
             for i, r in enumerate(gens.rule_cases()):
                 if len(r["sql"]) < 600 and r["templater"] in (None, "raw"):
